@@ -316,6 +316,8 @@ def gen_slice(rng):
     if rng.random() < 0.25 and free:
         k = rng.randint(1, 4)
         sc['collaterals'] = [rng.choice(free) for _ in range(k)]     # may repeat, may sit at script addresses
+    if rng.random() < 0.15:
+        sc['retry'] = True                               # a refused call with a poor collateral on the same builder first
     return sc
 
 
@@ -380,6 +382,8 @@ def gen_build(rng):
         if not sc['collaterals'] and free and rng.random() < 0.6:
             sc['collaterals'] = rng.sample(free, min(len(free), rng.randint(2, 3)))
         sc['session'] = True                      # second build of a wallet session re-using the UTxO objects of the first
+    elif rng.random() < 0.25:
+        sc['retry'] = True                        # a refused attempt on the same builder (poor collateral), then the scenario's
     return sc
 
 
@@ -443,6 +447,15 @@ def corpus():
     us = wal + [U(9, sa, 10000000, dh='inline', pa=True), U(8, other, 20000000, pa=True, script=v2)]
     out.append(dict(base, utxos=us, trigger={'kind': 'ref', 'script': v2, 'utxo': 3, 'ref': 4},
                     extra=[{'kind': 'mint', 'script': v2, 'qty': 1}], name='same-script-by-reference-and-object'))
+    # (viii) the history that exposed `C13-stale-return-of-earlier-build`: an attempt with another collateral on the SAME builder
+    # first (it builds: coins_per_utxo_byte 0 lets the token-heavy return pass) -- then the scenario's collateral, an ADA-only
+    # UTxO whose surplus needs no return: the body must not carry the return / total of the first attempt
+    us = [U(1, w, 4000000), U(2, w, 9000000), U(3, w, 40000000), U(9, saddr, 5000000, dh='hash')]
+    out.append(dict(base, utxos=us, pp={'coins_per_utxo_byte': 0}, trigger={'kind': 'wit', 'script': v2, 'utxo': 3},
+                    collaterals=[0], retry=True, name='second-build-other-collateral'))
+    # ... and the refused variant (default min ADA: the first attempt raises)
+    out.append(dict(base, utxos=us, trigger={'kind': 'wit', 'script': v2, 'utxo': 3},
+                    collaterals=[0], retry=True, name='retry-after-refused-collateral'))
     return out
 
 
